@@ -10,7 +10,11 @@ Tie        : translator (GenRepoint) + correspondence
                histories  random operation histories (append, multi-op transaction, RE-REGISTRATION of already
                           listed data files -- across commits, inside one append_files call, under either
                           spelling -- delete_files in every spelling, expire_snapshots, delete_snapshot,
-                          retention / previous-versions-max properties, garbage_collect, reopen), plus
+                          retention / previous-versions-max properties, garbage_collect, reopen, VERSION-POINTER
+                          FAULTS between operations: legacy numeric / padded / dangling / ahead / missing / empty /
+                          garbage / non-UTF-8 pointer, and the newest version file lost while the pointer naming it
+                          survives; the reader resolves the current version independently as "named file if it
+                          exists, else highest version on disk"), plus "pointer" histories (a fault before most commits), plus
                           "shape" histories (few files registered over and over, then deleted) on the real library (local backend) under a scripted
                           clock (equal / decreasing timestamps) and seeded uuid4; after EVERY step the
                           metadata JSON and manifests, read by an independent reader (json + fastavro), must
@@ -51,7 +55,7 @@ LEVEL = "proof"
 THEOREMS = [
     "C15_wf_invariant", "C15_seq_in_log_order", "C15_last_seq_mono", "C15_no_abort", "C15_repoint_nearest",
     "C15_nearest_is_ancestor", "C15_repoint_cycle", "C15_current_kept", "C15_delete_exact", "C15_entries_provenance",
-    "C15_repoint_all", "C15_txn_files", "C15_delete_complete", "C15_txn_delete_complete", "C15_mlog_ok", "C09_by_timestamp", "C09_delete_current", "C09_by_id",
+    "C15_repoint_all", "C15_txn_files", "C15_delete_complete", "C15_txn_delete_complete", "C15_mlog_ok", "C15_mlog_names_superseded", "C09_by_timestamp", "C09_delete_current", "C09_by_id",
 ]
 REQ = ["DS.Model.MetaBase", "DS.Gen.GenRepoint", "DS.Model.Meta"]
 
@@ -214,6 +218,45 @@ def gen_shape_history(rng: random.Random, max_steps: int) -> Dict[str, Any]:
     return {"ops": ops, "uuid_seed": rng.getrandbits(32), "t0": rng.choice(TS_POOL)}
 
 
+# every state of the version pointer the library accepts or tolerates; in all of them the current version is still
+# well defined (the named file if it exists, else the highest version on disk)
+PTR_FORMS = ["legacy", "legacy-newline", "padded", "dangling", "ahead", "legacy-ahead", "missing", "empty", "garbage",
+             "non-utf8", "superscript", "tmp-name"]
+
+
+def gen_pointer_history(rng: random.Random, max_steps: int) -> Dict[str, Any]:
+    """Histories in which the version pointer is stale / legacy / dangling / unreadable at the moment of a commit (a
+    pointer fault before most commits, every kind of committing operation after it), and now and then the newest
+    version file is lost while the pointer naming it survives."""
+    ops: List[Dict[str, Any]] = [{"k": "txn", "ops": [["append", ["auto"]]], "t": rng.choice(TS_POOL), "tu": rng.choice(TS_POOL)}]
+    n = rng.randint(3, max(4, min(max_steps, 14)))
+    for _ in range(n):
+        t, tu = rng.choice(TS_POOL), rng.choice(TS_POOL)
+        r = rng.random()
+        if r < 0.08:
+            ops.append({"k": "lose"})
+        elif r < 0.75:
+            ops.append({"k": "ptr", "form": rng.choice(PTR_FORMS)})
+        if rng.random() < 0.1:
+            ops.append({"k": "reopen"})
+        q = rng.random()
+        if q < 0.4:
+            ops.append({"k": "txn", "ops": [["append", ["auto"]]], "t": t, "tu": tu})
+        elif q < 0.55:
+            ops.append({"k": "txn", "ops": [["delete", [[rng.randrange(1, 8), rng.choice([0, 1])]]]], "t": t, "tu": tu})
+        elif q < 0.67:
+            ops.append({"k": "txn", "ops": [["expire", rng.choice(TS_POOL)]], "t": t, "tu": tu})
+        elif q < 0.8:
+            ops.append({"k": "delsnap", "ref": rng.randrange(8), "pick": rng.choice(["current", "retained"]), "tu": tu})
+        elif q < 0.9:
+            ops.append({"k": "setmax", "v": rng.choice(MAX_VALUES), "tu": tu})
+        elif q < 0.95:
+            ops.append({"k": "setret", "v": rng.choice(RET_VALUES), "tu": tu})
+        else:
+            ops.append({"k": "gc"})
+    return {"ops": ops, "uuid_seed": rng.getrandbits(32), "t0": rng.choice(TS_POOL)}
+
+
 def gen_history(rng: random.Random, max_steps: int) -> Dict[str, Any]:
     n = rng.randint(3, max_steps)
     mode = rng.choice(["any", "any", "equal", "decreasing", "increasing"])
@@ -265,10 +308,14 @@ def gen_history(rng: random.Random, max_steps: int) -> Dict[str, Any]:
             ops.append({"k": "setmax", "v": rng.choice(MAX_VALUES), "tu": tu})
         elif r < 0.97:
             ops.append({"k": "txn", "ops": [], "t": next_t(), "tu": tu})
-        elif r < 0.985:
+        elif r < 0.978:
             ops.append({"k": "gc"})
-        else:
+        elif r < 0.986:
             ops.append({"k": "reopen"})
+        elif r < 0.998:
+            ops.append({"k": "ptr", "form": rng.choice(PTR_FORMS)})
+        else:
+            ops.append({"k": "lose"})
     return {"ops": ops, "uuid_seed": rng.getrandbits(32), "t0": rng.choice(TS_POOL)}
 
 
@@ -297,6 +344,8 @@ class Driver:
         self.oracle = Oracle(self.reader)
         self.oracle_error: Optional[str] = None
         self.nrereg = 0
+        self.model_valid = True
+        self.nptr = 0
 
     # -- helpers --------------------------------------------------------------------------------
     def _data_listing(self) -> set:
@@ -315,8 +364,8 @@ class Driver:
         schema = Schema(schema_id=1, fields=[{"id": 1, "name": "k", "type": "long", "required": False}])
         self.schema = schema
         self.table = create_table(self.root, schema)
-        self.meta_files[self.reader.pointer()] = 0
-        self.initial = {"pointer": self.reader.pointer(), "metadata": self.reader.metadata()}
+        self.meta_files[self.reader.current()] = 0
+        self.initial = {"pointer": self.reader.current(), "metadata": self.reader.metadata()}
         self.oracle.observe_initial(self.initial)
 
     def _custom_file(self, spelling: int):
@@ -347,10 +396,51 @@ class Driver:
                        file_size_in_bytes=os.path.getsize(os.path.join(self.root, body)))
         return out, (spelling, name)
 
+    # -- the version pointer is only a hint: every state of it the library accepts or tolerates ---------------
+    def _pointer_fault(self, form: str, current: str) -> None:
+        """Rewrite metadata.version-hint.text without touching any version file. In every form the current version
+        is still the one the format defines (named file if it exists, else highest version on disk)."""
+        import re
+        ver = int(re.match(r"^v(\d+)", current).group(1))
+        path = os.path.join(self.root, "metadata.version-hint.text")
+        self.nptr += 1
+        if form == "missing":
+            if os.path.exists(path):
+                os.remove(path)
+            return
+        content = {
+            "legacy": str(ver).encode(),                                   # Hadoop-catalog style bare number
+            "legacy-newline": (str(ver) + "\n").encode(),
+            "padded": ("  " + current + " \n").encode(),                   # the right name, surrounded by blanks
+            "dangling": f"v{ver}-00000000.metadata.json".encode(),          # right version, file that never existed
+            "ahead": f"v{ver + 3}-0badc0de.metadata.json".encode(),         # a version that was never committed
+            "legacy-ahead": str(ver + 2).encode(),
+            "empty": b"",
+            "garbage": b"not a pointer",
+            "non-utf8": b"\xff\xfe\x00v1",
+            "superscript": "\u00b2".encode(),
+            "tmp-name": (current + ".tmp").encode(),
+        }[form]
+        with open(path, "wb") as f:
+            f.write(content)
+
+    def _lose_newest(self, current: str) -> bool:
+        """A partial restore: the newest version file is gone while the pointer that names it survived. Only when an
+        older version exists (otherwise there is no table left)."""
+        import re
+        ver = int(re.match(r"^v(\d+)", current).group(1))
+        older = [f for v, f in self.reader.versions_on_disk() if v < ver]
+        if not older:
+            return False
+        os.remove(os.path.join(self.root, "metadata", current))
+        self.nptr += 1
+        return True
+
     # -- one step -------------------------------------------------------------------------------
     def step(self, idx: int, op: Dict[str, Any]) -> None:
         sid = idx + 1            # the model's snapshot id / file id for this step
-        before_ptr = self.reader.pointer()
+        before_ptr = self.reader.current()
+        lost = False
         exc: Optional[str] = None
         model_op: Optional[str] = None
         t = self.table
@@ -419,6 +509,10 @@ class Driver:
             except Exception as e:
                 exc = f"{type(e).__name__}: {e}"[:300]
             model_op = f"{'SetRetention' if op['k'] == 'setret' else 'SetPrevMax'} {pval_coq(op['v'])} ({op['tu']}) {sid}"
+        elif op["k"] == "ptr":
+            self._pointer_fault(op["form"], before_ptr)
+        elif op["k"] == "lose":
+            lost = self._lose_newest(before_ptr)
         elif op["k"] == "reopen":
             from datashard import load_table
             self.table = t = load_table(self.root)       # a fresh handle: nothing may live in the old one
@@ -426,11 +520,19 @@ class Driver:
             try:
                 t.garbage_collect(grace_period_ms=0)
             except Exception as e:
-                self.errors.append(f"step {idx}: garbage_collect raised {type(e).__name__}: {e}"[:300])
+                # refusing to collect (fail closed, e.g. while the pointer names a missing file) is the collector's
+                # right and changes nothing; any other exception is unexpected
+                if type(e).__name__ != "GarbageCollectionAborted":
+                    self.errors.append(f"step {idx}: garbage_collect raised {type(e).__name__}: {e}"[:300])
         # ---- observe
-        ptr = self.reader.pointer()
+        ptr = self.reader.current()
         md = self.reader.metadata(ptr)
-        if ptr != before_ptr:
+        if lost:
+            outcome = "Lost"               # the newest version file is gone: the table is at its predecessor again
+            self.model_valid = False       # the model has no such event; later steps are judged by the oracle only
+            if ptr not in self.meta_files:
+                self.errors.append(f"step {idx}: after losing the newest version the table resolves to an unknown file {ptr}")
+        elif ptr != before_ptr:
             if ptr in self.meta_files:
                 self.errors.append(f"step {idx}: pointer moved to an already known metadata file {ptr}")
             self.meta_files.setdefault(ptr, sid)
@@ -445,7 +547,8 @@ class Driver:
         for i in new_ids[:1]:
             self.snap_ids[i] = sid
             self.snap_rev[sid] = i
-        rec = {"step": idx, "op": op, "exc": exc, "outcome": outcome, "pointer": ptr, "metadata": md, "deleted_paths": deleted}
+        rec = {"step": idx, "op": op, "exc": exc, "outcome": outcome, "pointer": ptr, "metadata": md, "deleted_paths": deleted,
+               "lost": lost}
         self.raw.append(rec)
         if self.oracle_error is None:
             try:
@@ -453,7 +556,7 @@ class Driver:
             except Exception:
                 import traceback
                 self.oracle_error = traceback.format_exc()[-1500:]
-        if model_op is not None:
+        if model_op is not None and self.model_valid:
             self.model_ops.append(model_op)
             try:
                 self.observed.append(self.canon(md, ptr, outcome))
@@ -581,6 +684,15 @@ class Oracle:
         tag = f"step {step} ({op['k']})"
         snaps = md["snapshots"]
         ids = [s["snapshot_id"] for s in snaps]
+        if rec.get("lost"):
+            # the newest version file was removed from outside: the table IS its predecessor again; the chain of
+            # superseded versions, last_sequence_number and the base of the next transaction are that version's
+            while len(self.versions) > 1 and self.versions[-1][0] != ptr:
+                self.versions.pop()
+            if self.versions[-1][0] != ptr:
+                self.fail("lost-version-recovery", f"{tag}: after the newest version file was lost the table resolves to {ptr}, "
+                                                   f"which is not a version committed before it")
+            self.last_seq = md["last_sequence_number"]
         if not self.versions or self.versions[-1][0] != ptr:
             self.versions.append((ptr, md["last_updated_ms"]))
         # ghost update: snapshots first seen now
@@ -766,7 +878,7 @@ def run_history(args: Tuple[str, Dict[str, Any]]) -> Dict[str, Any]:
 def _shape(d: Driver) -> Dict[str, Any]:
     md = d.raw[-1]["metadata"] if d.raw else {"snapshots": []}
     return {"snapshots_committed": len(d.snap_ids), "retained_at_end": len(md["snapshots"]), "files": d.nfiles,
-            "reregistered": d.nrereg}
+            "reregistered": d.nrereg, "pointer_faults": d.nptr}
 
 
 def model_states(cases: List[Dict[str, Any]]) -> List[Any]:
@@ -805,7 +917,7 @@ def _plain(x: Any) -> Any:
 
 def _empty_result(hist: Dict[str, Any], **kw: Any) -> Dict[str, Any]:
     r = {"hist": hist, "model_ops": [], "observed": [], "errors": [], "oracle": [], "lookups": [], "nsteps": 0,
-         "outcomes": [], "excs": [], "shape": {"snapshots_committed": 0, "retained_at_end": 0, "files": 0, "reregistered": 0}}
+         "outcomes": [], "excs": [], "shape": {"snapshots_committed": 0, "retained_at_end": 0, "files": 0, "reregistered": 0, "pointer_faults": 0}}
     r.update(kw)
     return r
 
@@ -1327,6 +1439,7 @@ def check_histories(ctx) -> None:
     max_steps = 20 if ctx.tier == "quick" else 45
     hists = [gen_history(ctx.rng, max_steps) for _ in range(nh)]
     hists += [gen_shape_history(ctx.rng, max_steps) for _ in range(60 if ctx.tier == "quick" else 400)]
+    hists += [gen_pointer_history(ctx.rng, max_steps) for _ in range(60 if ctx.tier == "quick" else 400)]
     hists = CORPUS + hists
     results = run_histories(ctx, hists, "h")
     # ---- oracle (implementation only)
@@ -1364,6 +1477,7 @@ def check_histories(ctx) -> None:
     ctx.stats["history_steps"] = steps
     ctx.stats["histories"] = len(results)
     ctx.stats["reregistrations"] = sum(r["shape"].get("reregistered", 0) for r in results)
+    ctx.stats["pointer_faults"] = sum(r["shape"].get("pointer_faults", 0) for r in results)
     oc: Dict[str, int] = {}
     kinds: Dict[str, int] = {}
     for r in results:
@@ -1460,12 +1574,27 @@ CORPUS: List[Dict[str, Any]] = [
              {"k": "txn", "ops": [["append", [["re", 1, 1], ["re", 0, 0]]]], "t": 1001, "tu": 1002},
              {"k": "txn", "ops": [["delete", [[1, 0]]], ["append", [["re", 0, 1]]]], "t": 1002, "tu": 1002},
              {"k": "txn", "ops": [["delete", [[1, 1], [2, 0]]]], "t": 1002, "tu": 1003}], "uuid_seed": 4, "t0": 1000},
+    # seed C15-f (the superseded version taken from the pointer's bytes instead of the resolved current version):
+    # a legacy numeric pointer, a pointer to a version that was never committed, and the newest version file lost
+    # while the pointer naming it survives -- each followed by commits of different kinds
+    {"ops": [{"k": "txn", "ops": [["append", ["auto"]]], "t": 1000, "tu": 1000},
+             {"k": "ptr", "form": "legacy"},
+             {"k": "txn", "ops": [["append", ["auto"]]], "t": 1000, "tu": 1001},
+             {"k": "ptr", "form": "ahead"},
+             {"k": "delsnap", "ref": 0, "pick": "current", "tu": 1002},
+             {"k": "ptr", "form": "dangling"},
+             {"k": "txn", "ops": [["expire", 5000]], "t": 1000, "tu": 1002}], "uuid_seed": 5, "t0": 1000},
+    {"ops": [{"k": "txn", "ops": [["append", ["auto"]]], "t": 1000, "tu": 1000},
+             {"k": "txn", "ops": [["append", ["auto"]]], "t": 1001, "tu": 1001},
+             {"k": "lose"},
+             {"k": "txn", "ops": [["append", ["auto"]]], "t": 1002, "tu": 1002},
+             {"k": "setmax", "v": "1", "tu": 1003}], "uuid_seed": 6, "t0": 1000},
 ]
 
 
 def run(ctx) -> None:
     ctx.rule = ("histories: random operation lists over {append, multi-op transaction, re-registration of listed files, delete_files (3 spellings), expire, "
-                "delete_snapshot, retention property, metadata-log bound, empty transaction, garbage_collect} with scripted "
+                "delete_snapshot, retention property, metadata-log bound, empty transaction, garbage_collect, version-pointer faults, lost newest version} with scripted "
                 "equal/decreasing/arbitrary timestamps; state compared after every step; a history is distinct by its full op list. "
                 "forests: every parent map on <= 5 snapshots (cycles, self loops), maps with None/-1/dangling parents, duplicated ids, "
                 "each x every kept subset")
